@@ -32,6 +32,10 @@ func reg(id string, m Meta, f func(r *core.Run)) {
 	if m.DesignRef == "" {
 		m.DesignRef = "DESIGN.md §4 " + id
 	}
+	if n, ok := extraNotes[id]; ok {
+		m.Technique += "; " + n[0]
+		m.Explanation += " Added clauses: " + n[1]
+	}
 	if rows := errRows[id]; len(rows) > 0 {
 		m.Technique += "; targeted error-discipline rows (no decision-input error is dropped)"
 		var fns []string
